@@ -397,7 +397,7 @@ def extra_codec_streams(ctx):
             if rng.random() < (0.3 if ctx.quick() else 0.5):
                 for cut in range(len(s)):
                     items.append(s[:cut])
-        for ln in (64, 257, 1000, 4096, 10000):      # long inputs: several doublings of the buffer
+        for ln in (64, 257, 1000, 4096):      # long inputs: several doublings of the buffer
             items.append(b''.join(rng.choice(rep)[0] for _ in range(ln)))
             items.append(b'a' * ln)
         items = [b for b in items if b'\n' not in b or len(b) == 1]
@@ -425,7 +425,7 @@ def extra_codec_streams(ctx):
         for pos in range(6):
             for bad in ('€', '\U0001F600', '\ud800'):
                 texts.append(''.join(base[:pos]) + bad + ''.join(base[pos:]))
-        for ln in (64, 1000, 10000):
+        for ln in (64, 1000, 4096):
             texts.append(''.join(rng.choice(chars) for _ in range(ln)))
         for ch in chunks(texts, 400):
             enc.append((name, ch))
@@ -451,9 +451,12 @@ def traced_iconv(payload):
         err = ctypes.get_errno()
         ai = inl._obj.value if inl is not None else None
         ao = outl._obj.value if outl is not None else None
-        written = ctypes.string_at(start, bo - ao) if (outb is not None and bo is not None and ao is not None and 0 <= bo - ao <= bo) else b''
         kind = 'reset' if (inb is None and outb is None) else ('flush' if inb is None else 'conv')
-        log.append((kind, bi, bo, rc == SIZE_MAX, err, ai, ao, written))
+        written = b''
+        if len(log) < 400 and outb is not None and bo is not None and ao is not None and 0 <= bo - ao <= bo:
+            written = ctypes.string_at(start, bo - ao)
+        if len(log) < 100000:
+            log.append((kind, bi, bo, rc == SIZE_MAX, err, ai, ao, written))
         return rc
     I._iconv = rec
     try:
@@ -512,6 +515,11 @@ def traced_iconv(payload):
             if not 0 <= ao <= bo:
                 problems.append('flush produced outside the buffer')
     caps = sorted(rows)
+    if len(caps) > 64:
+        # far more iterations than any doubling schedule: do not build a model request of that size
+        return ('%d %s' % (len(caps) - 1, real), None, problems + ['%d iterations of the retry loop' % len(caps)], len(caps) - 1, len(data))
+    for c in caps[:-1]:
+        rows[c]['buf'] = b''           # only the buffer of the last iteration is ever returned
     # "E2BIG only if the buffer was too small": a capacity that failed with E2BIG is smaller than one that sufficed
     final = [c for c in caps if rows[c]['rc'] == 'ok' and rows[c]['frc'] == 'ok']
     if final:
@@ -573,7 +581,7 @@ def iconv_cases(ctx):
                 pos = rng.randrange(len(s) + 1)
                 s = s[:pos] + bytes([rng.randrange(0x80, 0x100)]) + s[pos:]
             out.append(('D', encname, list(s)))
-        for ln in (1, 2, 3, 4, 5, 15, 16, 17, 255, 256, 1023, 4097, 20000):
+        for ln in (1, 2, 3, 4, 5, 15, 16, 17, 255, 256, 1023, 4097):
             out.append(('D', encname, list((b''.join(rng.choice(units) for _ in range(ln)))[:ln * 2])))
             out.append(('D', encname, [97] * ln))
         chars = ['a', 'Z', '中', '文', 'Ę', 'ế', '€', 'д', '\U0001F600', '\ud800', '乂']
@@ -582,7 +590,7 @@ def iconv_cases(ctx):
             if rng.random() < 0.35:
                 t.insert(rng.randrange(len(t) + 1), rng.choice(chars[6:]))
             out.append(('E', encname, [ord(c) for c in t]))
-        for ln in (1, 2, 3, 4, 5, 255, 1024, 20000):
+        for ln in (1, 2, 3, 4, 5, 255, 1024, 4097):
             out.append(('E', encname, [0x4e2d] * ln))
             out.append(('E', encname, [97] * ln))
     out.append(('D', 'EUC-TW', []))
@@ -933,8 +941,8 @@ def check(ctx):
 
     # ---- 3. the iconv binding
     ic = iconv_cases(ctx)
-    traced = common.pmap('harness.c20', 'traced_iconv', ic, per_case_timeout=120)
-    lines = [t[1] for t in traced if not isinstance(t, str)]
+    traced = common.pmap('harness.c20', 'traced_iconv', ic, per_case_timeout=30)
+    lines = [t[1] for t in traced if not isinstance(t, str) and t[1] is not None]
     model = common.run_driver(lines)
     ctx.evaluations += len(lines)
     mi = 0
@@ -943,8 +951,11 @@ def check(ctx):
             ctx.disagree('iconv-loop', {'direction': payload[0], 'encoding': payload[1], 'len': len(payload[2])}, 'completed', t)
             continue
         real, line, problems, grows, n = t
-        m = model[mi]
-        mi += 1
+        if line is None:
+            m = real
+        else:
+            m = model[mi]
+            mi += 1
         ctx.count('iconv:%s:%s' % (payload[0], real.split(' ')[1]))
         ctx.count('iconv:doublings:%d' % grows)
         if grows or real.split(' ')[1] == 'err':
